@@ -66,7 +66,7 @@ CostFamilies == {
     <<"nesting",               {"html", "html_unclosed", "rtf", "odt", "docx", "ods", "epub"}, {100, 1000, 10000}>>,
     <<"nesting",               {"docx_tbl"},       {100, 1000}>>,
     <<"ole_vector_count",      {"doc", "ppt", "xls"}, {100, 10000, 100000000, P2}>>,
-    <<"sevenz_ratio",          {"honest", "lying"}, {67108864, 268435456}>>,
+    <<"sevenz_ratio",          {"honest", "lying"}, {67108864, 134217728}>>,
     <<"sevenz_ratio",          {"admitted"},       {1048576, 8388608}>>,
     <<"targz_ratio",           {"skipped"},        {11534336, 67108864}>>,
     <<"targz_ratio",           {"admitted"},       {1048576, 8388608}>>,
